@@ -338,9 +338,13 @@ func (s Spec) Build() *decimal.Decimal {
 			if d == nil {
 				d = rawFinite(s.Neg, want.Digits, want.Exp, s.P, s.M)
 			}
-		case "cap", "stale":
+		case "cap", "stale", "hugecap":
 			// a receiver that held a longer value before: large capacity, stale words
+			// (hugecap: at least seven times the words it needs, like the receiver of an earlier Karatsuba product)
 			n := len(want.Digits)/DW + 6
+			if s.Hist == "hugecap" {
+				n = 7*(len(want.Digits)/DW+1) + 8
+			}
 			d = rawFinite(!s.Neg, strings.Repeat("9", n*DW), 77, uint(n*DW), s.M)
 			d.SetPrec(0)
 			d.SetMode(mode).SetPrec(s.P)
